@@ -33,7 +33,9 @@ impl<'a> Reader<&'a [u8]> for MonitorReader<'a> {
         self.rem()
     }
     fn subreader(&mut self, length: usize) -> Self {
-        crate::check!(length <= self.rem(), "C02: subreader request exceeds remaining octets");
+        let ok = length <= self.rem();
+        crate::check!(ok, "C02: subreader request exceeds remaining octets");
+        let length = if ok { length } else { self.rem() };
         let r = MonitorReader {
             data: self.data,
             pos: self.pos,
@@ -51,32 +53,53 @@ impl<'a> Reader<&'a [u8]> for MonitorReader<'a> {
         Some(s)
     }
     unsafe fn read_u8_unchecked(&mut self) -> u8 {
-        crate::check!(1 <= self.rem(), "C02: read_u8 request exceeds remaining octets");
+        let ok = 1 <= self.rem();
+        crate::check!(ok, "C02: read_u8 request exceeds remaining octets");
+        if !ok {
+            self.pos = self.end;
+            return 0;
+        }
         let v = self.data[self.pos];
         self.pos += 1;
         v
     }
     unsafe fn read_u16_be_unchecked(&mut self) -> u16 {
-        crate::check!(2 <= self.rem(), "C02: read_u16 request exceeds remaining octets");
+        let ok = 2 <= self.rem();
+        crate::check!(ok, "C02: read_u16 request exceeds remaining octets");
+        if !ok {
+            self.pos = self.end;
+            return 0;
+        }
         let v = crate::spec::be16(self.data, self.pos);
         self.pos += 2;
         v
     }
     unsafe fn read_u32_be_unchecked(&mut self) -> u32 {
-        crate::check!(4 <= self.rem(), "C02: read_u32 request exceeds remaining octets");
+        let ok = 4 <= self.rem();
+        crate::check!(ok, "C02: read_u32 request exceeds remaining octets");
+        if !ok {
+            self.pos = self.end;
+            return 0;
+        }
         let v = crate::spec::be32(self.data, self.pos);
         self.pos += 4;
         v
     }
     unsafe fn read_u64_be_unchecked(&mut self) -> u64 {
-        crate::check!(8 <= self.rem(), "C02: read_u64 request exceeds remaining octets");
+        let ok = 8 <= self.rem();
+        crate::check!(ok, "C02: read_u64 request exceeds remaining octets");
+        if !ok {
+            self.pos = self.end;
+            return 0;
+        }
         let v = crate::spec::be64(self.data, self.pos);
         self.pos += 8;
         v
     }
     fn skip_bytes(&mut self, length: usize) {
-        crate::check!(length <= self.rem(), "C02: skip request exceeds remaining octets");
-        self.pos += length;
+        let ok = length <= self.rem();
+        crate::check!(ok, "C02: skip request exceeds remaining octets");
+        self.pos += if ok { length } else { self.rem() };
     }
 }
 
